@@ -52,7 +52,9 @@ pub fn number_regex_parser(config: &SmartCalcConfig, tokinizer: &mut Tokinizer, 
             }
             else if let Some(decimal) = capture.name("DECIMAL") {
                 parse_end = decimal.end();
-                number = match decimal.as_str().replace(&config.thousand_separator[..], "").replace(&config.decimal_seperator[..], ".").parse::<f64>() {
+                /* A '.' or ',' behind the last digit is punctuation ('dec 15, 2020'), it must not decide whether the number is readable under the configured separators */
+                let decimal_text = decimal.as_str().trim_end_matches(|ch| ch == '.' || ch == ',');
+                number = match decimal_text.replace(&config.thousand_separator[..], "").replace(&config.decimal_seperator[..], ".").parse::<f64>() {
                     Ok(num) => {
                         number_match = Some(decimal);
                         match capture.name("NOTATION") {
